@@ -295,7 +295,7 @@ theorem writeGeneric_rel {m m' : M} (h : MRel ρ ρ' tab m m') (cfg : Cfg) (text
     MRel ρ ρ' tab (writeGeneric cfg m text raw) (writeGeneric cfg m' text raw') := by
   unfold writeGeneric
   split
-  · exact h
+  · exact h.upd (fun m => { m with modeInfo := [] }) (fun _ _ _ _ => rfl)
   · rw [h.n, h.modeInfo]
     exact (direct_rel h ((RowsRel.refl _).append (drawRows_rel hr _ _ _ _))).upd
       (fun m => { m with modeInfo := [] }) (fun _ _ _ _ => rfl)
